@@ -755,6 +755,15 @@ def decorations(mod, x, rng, level, with_positions=True):
             add(('prefix:space', x[:len(p)] + ' ' + x[len(p):]))
             add(('prefix:newline', x[:len(p)] + '\n' + x[len(p):]))
             add(('prefix:double', x[:len(p)] + x))
+    # spread: the whole number re-grouped with (multi-character) separators - the length of the presentation grows
+    # well beyond the canonical length while the compact form stays the same (pre-checks on the raw text show here)
+    core = ''.join(ch for ch in x if ch.isalnum())
+    if 4 <= len(core) == sum(1 for ch in x if not ch.isspace() and ch not in '-.') :
+        for sep in (' ', '-', ' - ', '  ', '. '):
+            for k in (1, 2, 4):
+                y = sep.join(core[i:i + k] for i in range(0, len(core), k))
+                if y != x:
+                    add(('spread:%d' % k, y))
     seps = common.SEPARATORS
     wss = common.WHITESPACE
     keys = [k for k in cm if cm[k] != k]
